@@ -320,7 +320,10 @@ def clean_stream(rng, k=None, with_noise=True):
 
 
 FRAGMENTS = [b"\x00\x01\x02", b"\xff" * 2, b"\xb5", b"\x24", b"\xd3", b"\xb5\x62\x01", b"$G", b"\xd3\x01",
-             b"\n", b"\xb5\xb5", b"\xd3\x00", b"\xb5\x62\x01\x02\xff\xff", b"$X", b"\xd3\x04", b"$GNGLL,1"]
+             b"\n", b"\xb5\xb5", b"\xd3\x00", b"\xb5\x62\x01\x02\xff\xff", b"$X", b"\xd3\x04", b"$GNGLL,1",
+             # complete, checksummed sentences whose first talker letter is not one pynmeagps lists (not NMEA frames
+             # for the reader: '$' is noise followed by text)
+             b"$QZGLL,5327.04,N,00214.41,W,223232.00,A,A*62\r\n", b"$XXGGA,1*00\r\n", b"$jkl\r\n"]
 
 
 def garbage_stream(rng):
